@@ -20,12 +20,14 @@ one() {
   if ! git -C "$dir" apply "$VERIF/mutants/$name.patch"; then echo "$name - patch-does-not-apply" >> "$out"; git -C $REPO worktree remove --force "$dir"; return; fi
   local tests=skipped
   if [ $SKIPTESTS -eq 0 ]; then
-    if (cd "$dir" && CARGO_TARGET_DIR="$dir/target" cargo test --workspace --no-fail-fast --offline >"$dir/tests.log" 2>&1); then tests=pass; else tests=FAIL; fi
+    (cd "$dir" && CARGO_TARGET_DIR="$dir/target" timeout -k 5 240 cargo test --workspace --no-fail-fast --offline >"$dir/tests.log" 2>&1); trc=$?
+    if [ $trc -eq 0 ]; then tests=pass; elif [ $trc -ge 124 ]; then tests=HANG; pkill -9 -f "$dir/target/debug/deps" 2>/dev/null; else tests=FAIL; fi
   fi
   local props; props=$(python3 -c "import json;print(' '.join(next(m['expected'] for m in json.load(open('$VERIF/mutants/index.json')) if m['name']=='$name')))")
   for p in $props; do
     local log="$dir/check-$p.log"
-    env VERIF_REPO="$dir" VERIF_OUT="$dir/.verif-out" VERIF_WORKERS=${VERIF_WORKERS:-4} ${RUNS:+VERIF_RUNS=$RUNS} "$VERIF/check" "$p" quick >"$log" 2>&1; local rc=$?
+    env VERIF_REPO="$dir" VERIF_OUT="$dir/.verif-out" VERIF_WORKERS=${VERIF_WORKERS:-4} ${RUNS:+VERIF_RUNS=$RUNS} timeout -k 5 900 "$VERIF/check" "$p" quick >"$log" 2>&1; local rc=$?
+    [ $rc -ge 124 ] && pkill -9 -f "$dir/.verif-target" 2>/dev/null
     local oracle; oracle=$(grep -o "oracle=[A-Za-z0-9_.-]*" "$log" | sort -u | tr '\n' ' ')
     local verdict=MISSED; [ $rc -eq 1 ] && verdict=caught; [ $rc -ge 2 ] && verdict=harness-error
     # does the replay reproduce on the mutant and stay clean on the unchanged tree?
